@@ -5,6 +5,7 @@ import (
 	"os"
 	"path/filepath"
 	"regexp"
+	"strconv"
 	"strings"
 )
 
@@ -38,7 +39,12 @@ func junkFor(typ string) string {
 func runC03Reject(seed int64) string {
 	r := rand.New(rand.NewSource(seed))
 	g := &sgen{r: r, noSize: true}
-	gs := g.sheet("HeroConf", 1+r.Intn(5), 1+r.Intn(3))
+	// every fifth sheet ends in a horizontal list of ten or more elements: the spoilt cell is its last element
+	var wide []*snode
+	if r.Intn(5) == 0 {
+		wide = []*snode{{kind: "hscalar", name: "Wide", typ: []string{"int32", "uint32", "bool"}[r.Intn(3)], n: 10 + r.Intn(3)}}
+	}
+	gs := g.sheet("HeroConf", 1+r.Intn(5), 1+r.Intn(3), wide...)
 	rows := gs.spec.Rows
 	if len(rows) < 4 {
 		return "unspec no-data"
@@ -58,6 +64,18 @@ func runC03Reject(seed int64) string {
 		return "unspec no-typed-column"
 	}
 	j := cands[r.Intn(len(cands))]
+	if wide != nil {
+		// all elements before the last one are populated, so that the last one is read
+		for c, n := range rows[0] {
+			if strings.HasPrefix(n, "Wide") && c < len(rows[k]) {
+				rows[k][c] = map[string]string{"bool": "true"}[wide[0].typ]
+				if rows[k][c] == "" {
+					rows[k][c] = strconv.Itoa(c + 1)
+				}
+				j = c
+			}
+		}
+	}
 	typ := firstTypeRe.FindString(rows[1][j])
 	junk := junkFor(typ)
 	if strings.HasPrefix(rows[1][j], "[]") && r.Intn(2) == 0 {
